@@ -55,7 +55,16 @@ type Ledger struct {
 	// viaAPI: storages created over this ledger reach it through the library's own register adapter
 	// (atree.NewLedgerBaseStorage over the owner/key interface) instead of using it as the BaseStorage directly
 	viaAPI bool
+
+	// noCopy: the ledger keeps the very slice a Store call hands it and hands out its own slice on Retrieve (as a
+	// naive BaseStorage such as test_utils.InMemBaseStorage does). A library that gives the ledger bytes it later reuses
+	// (a pooled encode buffer), or that scribbles over the bytes it is given to decode, then corrupts registers - which the
+	// byte-level and cold monitors see. With noCopy off the ledger copies on both paths.
+	noCopy bool
 }
+
+// ledgerNoCopy is set per case (runCase) like ledgerViaAPI.
+var ledgerNoCopy bool
 
 // ledgerViaAPI is set per case (runCase): every Ledger created while it is true sits behind atree.LedgerBaseStorage.
 var ledgerViaAPI bool
@@ -133,6 +142,7 @@ func NewLedger() *Ledger {
 		regs:   make(map[atree.SlabID][]byte),
 		index:  make(map[atree.Address]uint64),
 		viaAPI: ledgerViaAPI,
+		noCopy: ledgerNoCopy,
 	}
 }
 
@@ -191,7 +201,11 @@ func (l *Ledger) Store(id atree.SlabID, data []byte) error {
 			return ErrInjected
 		}
 	}
-	l.regs[id] = append([]byte(nil), data...)
+	if l.noCopy {
+		l.regs[id] = data
+	} else {
+		l.regs[id] = append([]byte(nil), data...)
+	}
 	l.bytesStored += len(data)
 	l.record('S', id, data, false)
 	return nil
@@ -233,6 +247,9 @@ func (l *Ledger) Retrieve(id atree.SlabID) ([]byte, bool, error) {
 		return nil, false, nil
 	}
 	l.bytesRetrieved += len(data)
+	if l.noCopy {
+		return data, true, nil
+	}
 	return append([]byte(nil), data...), true, nil
 }
 
